@@ -393,7 +393,7 @@ func (e *Engine) dischargePath(fn *ssa.Function, po *pathOutcome, pathNo int, w 
 			full := <-opts.Pool.Submit([]string{q.Script}, q.Vars, budgets)
 			r.Verdict = "unconfirmed"
 			if ob.Kind == "range" {
-				r.Note += " tracked-range obligation of the algebraic model (engine-only: the bound is on intermediate values, not on inputs)"
+				r.Note += " tracked-range obligation of the algebraic model (engine-only: the bound is on intermediate values, not on inputs) [" + ob.Where + "]"
 				e.confirmByNativeRun(fn, x, ob, r, opts)
 			} else if ob.Kind == "separation" {
 				r.Note += " write-set separation obligation (engine-only: a written object is shared between the two parties; natively this is a potential data race, not a reproducible failure)"
